@@ -25,6 +25,10 @@ Record psnap := {
 Inductive pop :=
 | OpCallBegin (a : nat) (dial_ok : bool) (got : option nat)  (* getConn + the call registers (handler held) *)
 | OpCallEnd (c : nat) (shutdown : bool)                       (* the held call returns *)
+| OpStreamOpen (a : nat) (dial_ok : bool) (got : option nat) (* Transport.NewStream succeeded: getConn, the stream registers, lastTime is refreshed *)
+| OpStreamEnd (c : nat)                                       (* Stream.Close acknowledged on a live connection *)
+| OpGet (a : nat) (dial_ok : bool) (got : option nat)         (* getConn alone (hook): the caller holds the connection, its call comes later *)
+| OpBeginOn (c : nat)                                         (* the call of a caller that got c earlier registers now *)
 | OpCall (a : nat) (dial_ok : bool) (got : option nat) (errdial : bool) (shutdown : bool)  (* a whole synchronous Call / Ping; got = the connection that served it when the harness could tell *)
 | OpTick
 | OpCloseIdle
@@ -49,6 +53,16 @@ Definition apply (op : pop) (p : pool) : pool :=
       let p1 := step p (GetConn a ok 0) in
       match last_out p1 with Some (Some c) => step p1 (CallBegin c) | _ => p1 end
   | OpCallEnd c sh => step p (CallEnd c sh)
+  | OpStreamOpen a ok _ =>
+      (* net effect: busy+1 and last := now; expressed with existing actions on purpose *)
+      let p1 := step p (GetConn a ok 0) in
+      match last_out p1 with
+      | Some (Some c) => step (step (step p1 (CallBegin c)) (CallBegin c)) (CallEnd c false)
+      | _ => p1
+      end
+  | OpStreamEnd c => step p (StreamEnd c)
+  | OpGet a ok _ => step p (GetConn a ok 0)
+  | OpBeginOn c => step p (CallBegin c)
   | OpCall a ok _ _ sh =>
       let p1 := step p (GetConn a ok 0) in
       match last_out p1 with Some (Some c) => step (step p1 (CallBegin c)) (CallEnd c sh) | _ => p1 end
@@ -61,6 +75,8 @@ Definition apply (op : pop) (p : pool) : pool :=
 Definition got_ok (op : pop) (o : option (option nat)) : bool :=
   match op with
   | OpCallBegin _ _ g => bool_decide (o = Some g)
+  | OpStreamOpen _ _ g => bool_decide (o = Some g)
+  | OpGet _ _ g => bool_decide (o = Some g)
   | OpCall _ _ g errdial _ =>
       match o with
       | Some None => errdial
@@ -112,7 +128,7 @@ Fixpoint apply_all (ops : list pop) (p : pool) : pool * bool :=
   | op :: r =>
       let p1 := apply op p in
       let ok := match op with
-                | OpCallBegin _ _ _ | OpCall _ _ _ _ _ =>
+                | OpCallBegin _ _ _ | OpStreamOpen _ _ _ | OpGet _ _ _ | OpCall _ _ _ _ _ =>
                     (* the getConn output of this op is the one appended by it *)
                     got_ok op (list.last (take (S (length (p_out p))) (p_out p1)))
                 | _ => true
